@@ -40,22 +40,22 @@ theorem assemble_costs (arch : Arch Rat) (w : Workload Rat) (m : Mapping Rat) (b
     rw [filter_rows, List.map_map]
     exact sum_scaled arch l (fun b => netWrite b.s) _ (fun b hb => by simpa using (List.mem_filter.1 hb).2)
   have hlats : (assemble arch w m bs).latencies = e.latencies := by
-    simp only [assemble, costsE, e, levelIds, hany, hreads, hwrites, List.map_map]
+    simp only [assemble, costsE, overallOf, latsOf, usedOf, latOf, dynOf, leakOf, e, levelIds, hany, hreads, hwrites, List.map_map]
     first | done | (apply List.map_congr_left; intro l _; rfl)
   have hact : (assemble arch w m bs).actions = e.actions := by
-    simp only [assemble, costsE, e, List.map_map]
+    simp only [assemble, costsE, overallOf, latsOf, usedOf, latOf, dynOf, leakOf, e, List.map_map]
     first | done | (apply List.map_congr_left; intro b _; rfl)
   have htot : (assemble arch w m bs).totalLatency = e.totalLatency := by
-    simp only [assemble, costsE, e, levelIds, hany, hreads, hwrites, List.map_map, maxList_eq]
+    simp only [assemble, costsE, overallOf, latsOf, usedOf, latOf, dynOf, leakOf, e, levelIds, hany, hreads, hwrites, List.map_map, maxList_eq]
     first | done | rfl
   have hdyn : (assemble arch w m bs).dynamicEnergy = e.dynamicEnergy := by
-    simp only [assemble, costsE, e, List.map_map, sumList]
+    simp only [assemble, costsE, overallOf, latsOf, usedOf, latOf, dynOf, leakOf, e, List.map_map, sumList]
     first | done | rfl
   have hleak : (assemble arch w m bs).leakEnergy = e.leakEnergy := by
-    simp only [assemble, costsE, e, levelIds, hany, hreads, hwrites, List.map_map, maxList_eq, sumList]
+    simp only [assemble, costsE, overallOf, latsOf, usedOf, latOf, dynOf, leakOf, e, levelIds, hany, hreads, hwrites, List.map_map, maxList_eq, sumList]
     first | done | rfl
   have hte : (assemble arch w m bs).totalEnergy = e.totalEnergy := by
-    simp only [assemble, costsE, e, levelIds, hany, hreads, hwrites, List.map_map, maxList_eq, sumList]
+    simp only [assemble, costsE, overallOf, latsOf, usedOf, latOf, dynOf, leakOf, e, levelIds, hany, hreads, hwrites, List.map_map, maxList_eq, sumList]
     first | done | rfl
   exact ⟨hact, rfl, hlats, rfl, htot, hdyn, hleak, hte⟩
 
